@@ -302,7 +302,7 @@ def make_for_index_rule(iter_text, elem_prefix="&"):
     return rule
 
 
-def make_ghost_arg_rule(names, skip_after=(), arg="Tracked(w)", param="Tracked(w): Tracked<&mut World>"):
+def make_ghost_arg_rule(names, skip_after=(), arg="Tracked(w)", param="Tracked(w): Tracked<&mut World>", only_after=None):
     """R-ghost-arg: every definition `fn NAME(..)` with NAME in `names` gets the trailing ghost parameter
     and every call `NAME(..)` / `.NAME(..)` / `NAME::<T>(..)` the trailing ghost argument.
     skip_after: {NAME: [receiver idents]} -- calls `<recv>.NAME(` are left alone (same method name on a
@@ -349,6 +349,10 @@ def make_ghost_arg_rule(names, skip_after=(), arg="Tracked(w)", param="Tracked(w
                 continue
             if not is_def and n >= 2 and toks[s[n - 1]].text == "." and toks[s[n - 2]].text in skip_after.get(t.text, ()):
                 continue
+            if not is_def and only_after and t.text in only_after:
+                # method name shared with containers: only calls on the listed receivers are World-aware
+                if not (n >= 2 and toks[s[n - 1]].text == "." and toks[s[n - 2]].text in only_after[t.text]):
+                    continue
             if not is_def and n >= 1 and toks[s[n - 1]].text not in (".", "::") and n >= 1 and toks[s[n - 1]].kind == "id" and toks[s[n - 1]].text not in ("return", "in", "else", "match", "if", "unsafe"):
                 continue
             op = s[m]
@@ -402,6 +406,20 @@ def make_for_rule(name, matcher):
             else:
                 edits.ins_after(j, " %s " % bind, None)
             log("%s: for %s in %s" % (name, pat, iter_text))
+    return rule
+
+
+def make_break_value_rule(fn_names):
+    """R-break-value: in the listed functions (whose loop is the function's tail expression) a value-carrying
+    `break EXPR;` becomes `return EXPR;` (Verus rejects value-carrying breaks)."""
+    def rule(toks, lo, hi, edits, log, it=None):
+        if it is None or it.kind != "fn" or it.name not in fn_names or it.open is None:
+            return
+        s = sig_idx(toks, it.open, hi)
+        for n, i in enumerate(s):
+            if toks[i].kind == "id" and toks[i].text == "break" and n + 1 < len(s) and toks[s[n + 1]].text != ";" and toks[s[n + 1]].kind != "life":
+                edits.replace[i] = "return"
+                log("R-break-value: break EXPR -> return EXPR")
     return rule
 
 
@@ -1004,13 +1022,22 @@ class Generator:
                 lost("%s #%d `%s`" % (where_, k, seq), str(e))
         if blk.closures:
             cls = find_closures(toks, lo, hi)
-            for k, (header, line) in sorted(blk.closures.items()):
-                if k > len(cls):
-                    lost("closure %d" % k, "function has only %d closures" % len(cls))
-                    continue
-                bar, pe, blo, bhi, is_block = cls[k - 1]
+            for k, (header, line) in sorted(blk.closures.items(), key=lambda kv: str(kv[0])):
+                if isinstance(k, tuple):
+                    _, ptxt, nth = k
+                    cand = [c for c in cls if toktext(toks, c[0], c[1] + 1).replace(" ", "").replace("\n", "") == ptxt]
+                    if len(cand) < nth:
+                        lost("closure `%s` #%d" % (ptxt, nth), "function has %d such closures" % len(cand))
+                        continue
+                    bar, pe, blo, bhi, is_block = cand[nth - 1]
+                    k = "%s#%d" % (ptxt, nth)
+                else:
+                    if k > len(cls):
+                        lost("closure %d" % k, "function has only %d closures" % len(cls))
+                        continue
+                    bar, pe, blo, bhi, is_block = cls[k - 1]
                 o = {"o": "spec", "f": blk.specfile, "l": line, "fn": fnpath, "kind": "closure",
-                     "label": "%s.closure%d" % (it.name, k)}
+                     "label": "%s.closure%s" % (it.name, k)}
                 edits.delete(bar, pe + 1)
                 edits.ins_before(bar, header + " ", o)
                 if not is_block:
